@@ -17,7 +17,9 @@ RULE = (
     'gaps anywhere (including at the ends and gaps leaving a one-sample '
     'stretch); values on the dyadic lattice or arbitrary floats; rows of each '
     'file shuffled in 30% of cases; five time zones; 20% of cases through '
-    'the command line on files (with / without byte-order mark, LF / CRLF). Oracle: an independent '
+    'the command line on files (with / without byte-order mark, LF / CRLF); in 5 of 7 cases the numbers of the '
+    'files are spelled another way (12 for 12.0, 1.25e+1, 1.25E+1, +12.5, 12.5000 - only where the shortest '
+    'decimal has <= 15 digits). Oracle: an independent '
     'model (Fractions) of the grid, the copied rain / ET rows, linear '
     'interpolation of the bracketing samples (exact where the instant '
     'coincides with a sample, rel 1e-9 otherwise), absence of level and '
@@ -88,6 +90,10 @@ def cases(draw):
             'et': draw(st.permutations(range(len(et)))),
             'wl': draw(st.permutations(range(len(wl)))),
         }
+    # the spelling of the numbers in the three files
+    numtext = draw(st.sampled_from(dataset.NUMBER_TEXTS + [None]))
+    if numtext:
+        case['numtext'] = numtext
     return case
 
 
@@ -188,6 +194,8 @@ def compare(case, want, connection):
         out.add('has-gap')
     if 'order' in case:
         out.add('shuffled')
+    if case.get('numtext'):
+        out.add('numbers-written-' + case['numtext'])
     if gap_with_instant or case['mode'] != 'aligned':
         out.add('nontrivial')
     return out
